@@ -106,7 +106,8 @@ fn judge_cli(ctx: &Ctx, st: &mut Stats, d: &Degenerate, layout: &str, c: &CliCas
     let case = || input_json(d, layout).set("argv", Json::s(c.args.join(" ")));
     let lim = CliLimits { wall: std::time::Duration::from_secs(180), cpu_max_s: 60.0, stall: std::time::Duration::from_secs(30) };
     // every third case runs with stderr attached to a pseudo-terminal: progress bars are only drawn then
-    let tty = (hash_bytes(c.args.join(" ").as_bytes()) ^ hash_bytes(d.name.as_bytes())) % 3 == 0;
+    let tty = (hash_bytes(c.args.join(" ").as_bytes()) ^ hash_bytes(d.name.as_bytes())) % 3 == 0
+        || (matches!(c.kind, Kind::Ctr { .. } | Kind::Cov { .. }) && (d.recs.is_empty() || d.recs.iter().all(|r| r.seq.is_empty())));
     if tty {
         st.class("stderr-is-a-tty");
     }
@@ -246,7 +247,7 @@ pub fn cli(ctx: &Ctx) -> Stats {
         let (k, w) = if rep == 0 { (3usize, 12usize) } else { (rng0.usize(3, 7), rng0.usize(9, 40)) };
         let _ = (k, w);
         for d in degenerate_inputs(&mut rng0, 7, 12) {
-            for which in 0..12usize {
+            for which in 0..13usize {
                 jobs.push((d.clone(), which));
             }
         }
@@ -276,6 +277,14 @@ pub fn cli(ctx: &Ctx) -> Stats {
             7 => CliCase { name: "cov", args: sv(&["cov", "-i", &inp, "-o", &out_dir, "-k", "7", "-s", "5", "-c", "6", "-t", t]), kind: Kind::Cov { k: 7, norm: true } },
             8 => CliCase { name: "cov(--counts)", args: sv(&["cov", "-i", &inp, "-o", &out_dir, "-k", "7", "-s", "5", "-c", "6", "--counts", "-t", t]), kind: Kind::Cov { k: 7, norm: false } },
             9 => CliCase { name: "ctr", args: sv(&["ctr", "-i", &inp, "-o", &out_dir, "-k", "10", "-t", t]), kind: Kind::Ctr { k: 10 } },
+            12 => {
+                // the counting input is the same records in the *other* format family where that is legal
+                // (FASTQ needs bases), otherwise the same family; --alt-input must only change where counts come from
+                let main_is_fq = inp.contains(".fq");
+                let fastq_ok = !d.recs.is_empty() && d.recs.iter().all(|r| !r.seq.is_empty());
+                let alt = if !main_is_fq && fastq_ok { sc.write("alt.fastq", &ser::to_fastq(&d.recs, &SerOpts::plain())) } else { sc.write("alt.fna", &ser::to_fasta(&d.recs, &SerOpts::plain())) };
+                CliCase { name: "cov(--alt-input)", args: sv(&["cov", "-i", &inp, "-a", &alt, "-o", &out_dir, "-k", "7", "-s", "5", "-c", "6", "-t", t]), kind: Kind::Cov { k: 7, norm: true } }
+            }
             10 => {
                 let s2m = idx % 4 < 2;
                 CliCase { name: if s2m { "min(w=0,s2m)" } else { "min(w=0,m2s)" }, args: sv(&["min", "-i", &inp, "-o", &out_file, "-m", "7", "-w", "0", "-p", if s2m { "s2m" } else { "m2s" }, "-t", t]), kind: Kind::Min { m: 7, w: 0, s2m } }
